@@ -97,7 +97,8 @@ Reset ==
   /\ l' = l + 1
   /\ UNCHANGED moSeen
 
-TNext == (Consume \/ Silent \/ SkipFence \/ Final \/ End \/ Reset) /\ Progress /\ (l' > Len(Tr) => TLCSet(2, moSeen'))
+\* register 2 always holds the pairs seen so far (also when an invariant stops the run early)
+TNext == (Consume \/ Silent \/ SkipFence \/ Final \/ End \/ Reset) /\ Progress /\ TLCSet(2, moSeen')
 
 TSpec == TInit /\ [][TNext]_tvars
 
